@@ -148,8 +148,8 @@ Definition walk {A} (f : A -> A -> list entry) : list A -> list A -> stage :=
 Definition seq_stage (p k : stage) : stage :=
   if snd p then p else (fst p ++ fst k, snd k).
 
-(* [fx_name]: the tree with patches/fix-C16-name-unset.diff applied (a name
-   set on one side only is "too complex") *)
+(* [fx_name = true]: the code since fix 566d2c2 (a name set on one side only is
+   "too complex"); [false]: the code before it, kept for the regression witnesses *)
 Definition name_stage (fx_name : bool) (a1 a2 : oattr) : stage :=
   if fx_name && negb (ostr_eqb (option_map (fun _ => EmptyString) (a_name a1)) (option_map (fun _ => EmptyString) (a_name a2)))
   then ([], true) else (name_diff a1 a2, false).
@@ -171,7 +171,7 @@ Fixpoint diff_trees_gen (fx_name : bool) (o1 o2 : obj) {struct o1} : list entry 
       if snd r then fst r ++ tc else fst r
   end.
 (* the code as it is *)
-Definition diff_trees : obj -> obj -> list entry := diff_trees_gen false.
+Definition diff_trees : obj -> obj -> list entry := diff_trees_gen true.
 
 (* ------------------------------------------------------------------ *)
 (* topology level                                                       *)
@@ -218,7 +218,7 @@ Fixpoint inits_walk (l1 l2 : list string) : option bool :=
   | x :: r1, y :: r2 => if negb (String.eqb x y) then Some true else inits_walk r1 r2
   | _ :: _, [] => None
   end.
-(* [fx]: with patches/fix-C16-memattr-initiators.diff (nr_initiators compared first) *)
+(* [fx = true]: the code since fix ac5e4b1 (nr_initiators compared first) *)
 Definition inits_differ (fx : bool) (l1 l2 : list string) : option bool :=
   if fx && negb (Nat.eqb (List.length l1) (List.length l2)) then Some true else inits_walk l1 l2.
 
@@ -286,7 +286,7 @@ Definition diff_build_gen (fx_name fx_mattr : bool) (flags : N) (T1 T2 : topo) :
                else BRet 0 (d ++ ti)
            end.
 (* the code as it is *)
-Definition diff_build : N -> topo -> topo -> bres := diff_build_gen false false.
+Definition diff_build : N -> topo -> topo -> bres := diff_build_gen true true.
 
 (* ------------------------------------------------------------------ *)
 (* level arrays and parent chains                                       *)
@@ -443,8 +443,7 @@ Fixpoint apply_loop (rev : bool) (d : list entry) (nr : nat) (T : topo) : loopre
       end
   end.
 
-(* cancel: tmpdiff = diff; while (tmpdiff != tmpdiff2) apply_one(flags ^ REVERSE), result ignored.
-   [n] entries from the head of the list, in list order. *)
+(* apply_one(flags ^ REVERSE), result ignored, on the first [n] entries of a list, in list order *)
 Fixpoint cancel_loop (rev : bool) (d : list entry) (n : nat) (T : topo) : option topo :=
   match n, d with
   | S n', e :: r =>
@@ -455,6 +454,14 @@ Fixpoint cancel_loop (rev : bool) (d : list entry) (n : nat) (T : topo) : option
       end
   | _, _ => Some T
   end.
+
+
+
+(* cancel (since fix 751402d): err = -nr; while (--nr > 0) { walk to the nr-th
+   entry; apply_one(flags ^ REVERSE), result ignored }: the nr-1 applied
+   entries, last one first *)
+Definition cancel_loop_fixed (rev : bool) (d : list entry) (n : nat) (T : topo) : option topo :=
+  cancel_loop rev (List.rev (firstn n d)) n T.
 
 Inductive ares := ARet (rc : Z) (T : topo) | ACrash.
 (* for the driver *)
@@ -468,18 +475,16 @@ Definition diff_apply (flags : N) (d : list entry) (T : topo) : ares :=
     | LDone T' => ARet 0 T'
     | LCrash => ACrash
     | LFail nr T' =>
-        match cancel_loop rev d (pred nr) T' with
+        match cancel_loop_fixed rev d (pred nr) T' with
         | Some T'' => ARet (- Z.of_nat nr) T''
         | None => ACrash
         end
     end.
 
-(* The same function with the cancel loop undoing the applied entries last
-   to first (patches/fix-C16-rollback-order.diff). *)
-Definition cancel_loop_fixed (rev : bool) (d : list entry) (n : nat) (T : topo) : option topo :=
-  cancel_loop rev (List.rev (firstn n d)) n T.
-
-Definition diff_apply_fixed (flags : N) (d : list entry) (T : topo) : ares :=
+(* the function before fix 751402d: the cancel loop walked the applied
+   entries first to last ([cancel_loop] on the list itself); kept for the
+   regression witness *)
+Definition diff_apply_forward_cancel (flags : N) (d : list entry) (T : topo) : ares :=
   if negb (N.ldiff flags HWLOC_TOPOLOGY_DIFF_APPLY_REVERSE =? 0) then ARet (-1) T
   else
     let rev := negb (N.land flags HWLOC_TOPOLOGY_DIFF_APPLY_REVERSE =? 0) in
@@ -487,7 +492,7 @@ Definition diff_apply_fixed (flags : N) (d : list entry) (T : topo) : ares :=
     | LDone T' => ARet 0 T'
     | LCrash => ACrash
     | LFail nr T' =>
-        match cancel_loop_fixed rev d (pred nr) T' with
+        match cancel_loop rev d (pred nr) T' with
         | Some T'' => ARet (- Z.of_nat nr) T''
         | None => ACrash
         end
@@ -542,16 +547,15 @@ Definition erase_attr (a : oattr) : oattr :=
       (if is_numa (a_type a) then a_lmem a else 0) 0 (a_infos a).
 Definition erase (o : obj) : obj := tmap erase_attr o.
 
-(* additionally what a diff can carry: name, info values, local memory *)
+(* additionally what a diff can carry: the value of a name that is set on both sides, info values, local memory *)
 Definition skel_attr_gen (fx_name : bool) (a : oattr) : oattr :=
   mkA (a_depth a) 0 (a_type a) (a_subtype a) (a_os_index a) (a_sets a)
       (if fx_name then option_map (fun _ => EmptyString) (a_name a) else None)
       (if is_memcmp_type (a_type a) then a_tattr a else EmptyString) 0 0
       (map (fun p => (fst p, EmptyString)) (a_infos a)).
-Definition skel_attr : oattr -> oattr := skel_attr_gen false.
+(* whether a name is set belongs to the skeleton (since fix 566d2c2) *)
+Definition skel_attr : oattr -> oattr := skel_attr_gen true.
 Definition skel (o : obj) : obj := tmap skel_attr o.
-(* with patches/fix-C16-name-unset.diff: whether a name is set belongs to the skeleton *)
-Definition skel_fixed (o : obj) : obj := tmap (skel_attr_gen true) o.
 
 (* slot an entry reads and writes, for a topology with [nbl] levels: entries
    at depth nb_levels address the topology infos whatever their index *)
